@@ -164,6 +164,17 @@ def r3(ctx: Ctx) -> None:
                 ctx.unrec(f, other[0].node, f"{nm} queue is rebuilt from popped + remaining orders before the fills", "the queue is restored in place, in a form that is not modelled", ", ".join(sorted({getattr(e, "name", None) or e.kind for e in other})))
                 continue
         ctx.check(ok, f, sts[0].node if sts else f.node, f"{nm} queue is rebuilt from popped + remaining orders before the fills", "[*popped, *queue]", found)
+    # a round that walked the books and returns without handing pairs over has popped orders too
+    for ep in w.early_exits:
+        wl = [l for l in loops(ep) if l.loopkind == "while"]
+        aft = ep.events[ep.events.index(wl[0]) + 1:] if wl else []
+        restored = {nm for nm in ("buy_order_book", "sell_order_book") for e in aft
+                    if (e.kind == "store" and e.attr == "priority_queue" and key(strip_ver(e.target)).endswith(f"{nm}.priority_queue"))
+                    or (e.kind in ("store", "del") and e.attr is None and e.base is not None and nm in key(strip_ver(e.base)))
+                    or (e.kind == "call" and e.data.get("mutates") is not None and nm in key(strip_ver(e.data["mutates"])) and e.name != "heapify")}
+        node = next((c_[2] for c_ in reversed(ep.conds)), None) or f.node
+        ctx.check(restored == {"buy_order_book", "sell_order_book"}, f, node, "a round that returns after the walk without fills has put the popped orders back", "both queues rebuilt from popped + remaining orders on every way out of the walk",
+                  f"returns with {', '.join(sorted({'buy_order_book', 'sell_order_book'} - restored))} not restored: the orders popped during the walk are gone from the book ({ep.describe()[-140:]})")
     # and the fills come after the rebuild
     idx_fill = w.main.events.index(w.fill_call) if w.fill_call in w.main.events else -1
     if idx_fill < 0:  # the fills are made in a for-loop over the pending list
@@ -289,3 +300,84 @@ def h9(ctx: Ctx) -> None:
     from .events import check_identity_comparisons
 
     check_identity_comparisons(ctx, ["Market", "OrderBook", "Order", "OrderKind"], floor=40)
+
+
+def check_kind_price(ctx: Ctx) -> None:
+    """The constructor of Order ties the kind to the price (market order <=> no price).  The executability
+    test and the walk read the kind in some places and the price in others, so a later writer that moves
+    one without the other leaves an order that ranks as one kind and is priced as the other."""
+    fs = {}
+    for attr in ("kind", "price"):
+        for w in ctx.cg.writers_of("Order", attr, kinds=("store", "aug", "del")):
+            if w.recv and "Order" not in w.recv:
+                continue
+            if not w.recv and not (w.func.name == "hooked_before_order"):
+                continue
+            fs[w.func.qualname] = w.func
+    ctx.require("Order.__init__" in fs, "check_kind_price: Order.__init__ no longer stores kind/price")
+    ini = ctx.func("Order.__init__")
+    guards = set()
+    for p in ctx.paths("Order.__init__"):
+        if p.exit[0] != "raise":
+            continue
+        ks = " & ".join(sorted(key(strip_ver(c)) + ("" if pol else "!") for c, pol, _ in p.conds))
+        guards.add(ks)
+    ok = any("MARKET_ORDER" in g and "price is None" in g for g in guards) and any("LIMIT_ORDER" in g and "price is None" in g for g in guards)
+    if not ok:
+        ctx.unrec(ini, ini.node, "constructor ties kind and price", "the two refusals (market order with a price, limit order without) were not found in this form", "; ".join(sorted(guards))[:200])
+    else:
+        ctx.holds(ini, ini.node, "constructor ties kind and price", expected="market order <=> price is None, refused otherwise", found="two refusals")
+    for q, f in sorted(fs.items()):
+        if q == "Order.__init__" or f.outer is not None:
+            continue
+        bad: List[str] = []
+        odd: List[str] = []
+        n = 0
+        for p in ctx.paths(q):
+            if p.exit[0] == "raise":
+                continue
+            per: Dict[str, Dict[str, Term]] = {}
+            for e in p.walk_events():
+                if e.kind == "store" and e.attr in ("kind", "price") and e.base is not None:
+                    per.setdefault(key(strip_ver(e.base)), {})[e.attr] = strip_ver(e.value)
+            for b, got in per.items():
+                n += 1
+                K, P = got.get("kind"), got.get("price")
+                if K is not None and key(K) == f"{b}.kind":
+                    K = None
+                if K is None:
+                    if P is not None and P == NONE:
+                        odd.append(f"{b}.price = None with the kind left as it is")
+                    continue
+                kk = key(K)
+                lim = kk.endswith("LIMIT_ORDER")
+                mar = kk.endswith("MARKET_ORDER")
+                if not lim and not mar:
+                    for c, pol, _ in p.conds:
+                        c = strip_ver(c)
+                        if c[0] == "cmp" and c[1] in ("==", "is") and kk in (key(c[2]), key(c[3])):
+                            other = key(c[3]) if key(c[2]) == kk else key(c[2])
+                            if other.endswith("LIMIT_ORDER"):
+                                lim, mar = pol, not pol
+                            elif other.endswith("MARKET_ORDER"):
+                                mar, lim = pol, not pol
+                if P is None:
+                    bad.append(f"{b}.kind = {kk[:60]} while {b}.price keeps whatever the order had ({p.describe()[:100]})")
+                elif lim and P == NONE:
+                    bad.append(f"{b}.kind = LIMIT_ORDER with {b}.price = None")
+                elif mar and P != NONE:
+                    bad.append(f"{b}.kind = MARKET_ORDER with {b}.price = {key(P)[:60]}")
+                elif not lim and not mar:
+                    odd.append(f"{b}.kind = {kk[:60]}: which kind that is on this path is not decided")
+        construct = f"{q} rewrites the kind / price of an order"
+        if bad:
+            ctx.violated(f, f.node, construct, "kind and price are written together and agree (LIMIT_ORDER with a price, MARKET_ORDER with None), as Order.__init__ demands", "; ".join(sorted(set(bad)))[:400])
+        elif odd:
+            ctx.unrec(f, f.node, construct, "; ".join(sorted(set(odd)))[:300])
+        else:
+            ctx.holds(f, f.node, construct, expected="kind and price written together and agreeing", found=f"{n} write set(s) on normal paths agree")
+
+
+@rule("C03.H10", "necessary for the stop condition: an order is a market order exactly when it has no price (the executability test reads the price, the ranking reads the kind); the constructor refuses anything else and every later writer of the kind or the price keeps the two together", "T1 writers + T6 per path", floor=2)
+def h10(ctx: Ctx) -> None:
+    check_kind_price(ctx)
